@@ -139,7 +139,25 @@ def check(run):
                       'the literal path can reach (or has passed) configuration::hostname_lookup', 'no path between the literal insert and hostname_lookup')
             g = [(q.render(ar, a), p) for a, p in q.guards_at(ar, ins)]
             run.check(('ec', False) in g, 'R5', 'literal-guard', '%s<%s>' % (ar.norm, tag), ar.loc(ins), 'the literal insert is not guarded by the successful address parse (!ec)', 'guarded by !ec of make_address')
-            run.check(q.render(ar, ins['args'][0]) == 'm_queue.begin()', 'R2k', 'literal-at-front', '%s<%s>' % (ar.norm, tag), ar.loc(ins), 'literal entries are not inserted at the front', 'insert(begin())')
+            # the queue is served from the front and its timer is armed for the front entry: a literal must not be put in
+            # front of an entry that is due EARLIER (it would delay it past its time and, literal after literal, serve them
+            # last-in-first-out). Its place is the first entry due later than it: a search over completion_time against `t`
+            pos = q.strip_casts(ins['args'][0])
+            srcs = [pos]
+            if is_node(pos) and pos['k'] == 'ref' and pos.get('dk') == 'local':
+                srcs = [d_ for _s, d_ in q.local_defs(ar, pos['did'])]
+            def _sorted_search(e):
+                for x in walk(e):
+                    if x['k'] == 'call' and (q.callee_name(x) or '').split('<')[0] in ('std::find_if', 'std::upper_bound', 'std::lower_bound', 'std::partition_point'):
+                        txt = q.render(ar, x)
+                        lam = [y for y in walk(x) if y['k'] == 'lambda']
+                        body = ' '.join(q.render(lf, n_) for y in lam for lf in fx.by_usr(y['fn']) for n_ in lf.all_nodes() if n_['k'] in ('bin', 'call'))
+                        if 'completion_time' in txt + body:
+                            return True
+                return False
+            run.check(bool(srcs) and all(is_node(e_) and _sorted_search(e_) for e_ in srcs), 'R2k', 'literal-in-time-order', '%s<%s>' % (ar.norm, tag), ar.loc(ins),
+                      'a literal is inserted at %s, not at the position its completion time gives it: put in front of an entry that is due earlier, it delays that entry past its time (two literals 500 ns apart: the first completes after 1.5 us; a host-name lookup behind a stream of literals waits for all of them)' % q.render(ar, pos)[:40],
+                      'inserted in front of the first entry that is due later (search over completion_time)')
             tdef = [v for v in [q.local_var(ar, 't')] if v]
             okt = bool(tdef) and 'now()' in q.render(ar, tdef[0]['init']) and any(x['k'] == 'int' and x['v'] == 1 for x in walk(tdef[0]['init'])) and any(('microseconds' in ar.ty(x) or 'ratio<1, 1000000>' in ar.ty(x)) for x in walk(tdef[0]['init']) if x['k'] in ('construct', 'cast'))
             run.check(okt, 'R4', 'literal-delay', '%s<%s>' % (ar.norm, tag), ar.loc(ins), 'literal completion time is not now() + 1 microsecond', 'now() + microseconds(1)')
@@ -211,8 +229,20 @@ def check(run):
             e = q.strip_casts(st[0]['init'])
             txt = q.render(ar, e)
             LAST = ('m_queue.back().completion_time', 'm_queue.rbegin()->completion_time', 'm_queue[(m_queue.size() - 1)].completion_time')
-            if e['k'] == 'cond' and q.render(ar, e['c']) == 'm_queue.empty()' and q.render(ar, e['a']).endswith('high_resolution_clock::now()') and q.render(ar, e['b']) in LAST:
-                run.ok('R5', 'compounding-origin', '%s<%s>' % (ar.norm, tag), ar.loc(), 'start = empty ? now() : ' + q.render(ar, e['b']))
+            def _last_or_max(b_):
+                b_ = q.strip_casts(b_)
+                if q.render(ar, b_) in LAST:
+                    return 'last'
+                if is_node(b_) and b_['k'] == 'call' and (q.callee_name(b_) or '').split('<')[0] == 'std::max' and len(b_.get('args') or []) == 2:
+                    ts_ = [q.render(ar, q.strip_casts(a_)) for a_ in b_['args']]
+                    if any(t_.endswith('high_resolution_clock::now()') for t_ in ts_) and any(t_ in LAST for t_ in ts_):
+                        return 'max'
+                return None
+            if e['k'] == 'cond' and q.render(ar, e['c']) == 'm_queue.empty()' and q.render(ar, e['a']).endswith('high_resolution_clock::now()') and _last_or_max(e['b']) == 'max':
+                run.ok('R5', 'compounding-origin', '%s<%s>' % (ar.norm, tag), ar.loc(), 'start = empty ? now() : max(now(), last entry)')
+            elif e['k'] == 'cond' and q.render(ar, e['c']) == 'm_queue.empty()' and q.render(ar, e['a']).endswith('high_resolution_clock::now()') and _last_or_max(e['b']) == 'last':
+                run.violation('R5', 'compounding-origin', '%s<%s>' % (ar.norm, tag), ar.loc(),
+                              'the start time of a new lookup is the completion time of the last queued entry even when that time is already PAST (an entry is served late when another one was put in front of it): the lookup then completes in less than its latency - the statement says max(time it was requested, completion of the previous lookup) + latency')
             elif 'm_queue.front()' in txt or 'm_queue.begin()' in txt or 'm_queue[0]' in txt:
                 run.violation('R5', 'compounding-origin', '%s<%s>' % (ar.norm, tag), ar.loc(),
                               'the start time of a new lookup is taken from the FRONT of the queue (%s): with two or more lookups pending the third starts when the first completes, not when the second does (lookups overlap instead of compounding)' % txt)
@@ -320,7 +350,7 @@ def check(run):
         cancel_aborts_rule(run, cn, tag)
         run.check(bool(sw) and q.on_all_paths(cn, sw), 'R2k', 'cancel-swaps', '%s<%s>' % (cn.norm, tag), cn.loc(), 'cancel() does not take the whole queue out before completing entries', 'm_queue.swap(local) first')
     # mutation kinds over the whole class
-    KINDS = {R + '::async_resolve': {'push_front', 'push_back'}, R + '::on_lookup': {'pop_front'}, R + '::cancel': {'swap'}}
+    KINDS = {R + '::async_resolve': {'push_front', 'push_back', 'insert'}, R + '::on_lookup': {'pop_front'}, R + '::cancel': {'swap'}}      # insert: at the position literal-in-time-order decides
     for fn in fx.repo_functions():
         if fn.d.get('defaulted') or q.top_function(fx, fn).cls != R:
             continue
